@@ -283,6 +283,8 @@ class Ctx:
             return {self.real(k): self.real(v) for k, v in x[1]}
         if isinstance(x, tuple) and x and x[0] == "$enum":
             return NATIVE_HELPERS.get("$enum:" + x[1], lambda m: m)(x[2])
+        if isinstance(x, tuple) and len(x) == 2 and x[0] == "$py":
+            return x[1]
         if isinstance(x, tuple) and x and x[0] == "$opaque":
             return ("opaque", x[1], x[2])
         if isinstance(x, tuple):
@@ -363,7 +365,8 @@ def native_check(target, con, args: dict, call, ensures=None):
     parsed = []
     pre_env = dict(args)
     olds_all = {}
-    for cl in ensures:
+    n_normal = len(ensures)
+    for cl in ensures + list(con.ensures_on_raise):
         rw = _OldRewriter()
         tree = rw.visit(ast.parse(cl.strip(), mode="eval"))
         ast.fix_missing_locations(tree)
@@ -403,12 +406,23 @@ def native_check(target, con, args: dict, call, ensures=None):
                 except Exception:  # noqa: BLE001
                     allowed = True
                 break
-        info["contract_ok"] = allowed
-        info["failed_clauses"] = [] if allowed else [f"raises {type(e).__name__} not permitted"]
+        failed = [] if allowed else [f"raises {type(e).__name__} not permitted"]
+        errors = []
+        for cl, tree, names in parsed[n_normal:]:
+            loc = dict(args)
+            loc.update(names)
+            try:
+                if not eval_with(tree, env, loc):
+                    failed.append(f"on raise: {cl}")
+            except Exception as e2:  # noqa: BLE001
+                errors.append(f"{cl!r}: evaluation error {type(e2).__name__}: {e2}")
+        info["contract_ok"] = not failed
+        info["failed_clauses"] = failed
+        info["spec_eval_errors"] = errors
         info["traceback"] = traceback.format_exc(limit=3)
         return info
     failed, errors = [], []
-    for cl, tree, names in parsed:
+    for cl, tree, names in parsed[:n_normal]:
         loc = dict(args)
         loc.update(names)
         loc["result"] = result
